@@ -86,8 +86,11 @@ def headerSites : List String := ["class_name", "base_class", "key", "value", "_
 def slotKind (e : Expr) : SlotKind :=
   let bf := e.unfilter
   match classify bf.1.src (bf.2.map Filter.name) with
-  | .identifier | .typeExpr | .reprValue | .baseExpr | .escapedKey | .codeSlot =>
+  | .identifier | .typeExpr | .reprValue | .baseExpr | .codeSlot =>
     if bf.2.isEmpty then .word (headerSites.contains bf.1.src) else .none
+  -- an escaped TypedDict key stands between the template's quotes, never at the start of a line: it
+  -- is one line and otherwise arbitrary (the wire name `class` is a legitimate key)
+  | .escapedKey => if bf.2.isEmpty then .line else .none
   | .templateData => if bf.2.isEmpty then .line else .none
   | .commentLine => .line
   | .docText => if bf.2 == [.escapeDocstring, .indent 4] then .doc else .none
@@ -126,10 +129,10 @@ def bslot (e : Expr) (b : BSt) : Option (List BSt) :=
   | .doc, .body => none
 
 def boneLine (e : Expr) : Bool :=
-  match slotKind e with
-  | .word _ => true
-  | .line => true
-  | _ => false
+  (match slotKind e with
+   | .word _ => true
+   | .line => true
+   | _ => false) && filterBlockSites.contains e.unfilter.1.src
 
 def blockAuto : Auto := { Q := BSt, step := bstep, slot := bslot, oneLine := boneLine }
 
